@@ -65,7 +65,7 @@ def run_one(sid, tier, nproc, all_checks):
             props += [p for p in ALL if p not in props]
         for prop in props:
             env = dict(os.environ, VERIF_REPO_SRC=os.path.join(tmp, 'src'),
-                       VERIF_OUT=os.path.join(tmp, 'out'), VERIF_STRICT='1')
+                       VERIF_OUT=os.path.join(tmp, 'out'), VERIF_STRICT='1', VERIF_STOP_ON_VIOLATION='1')
             if nproc:
                 env['VERIF_NPROC'] = str(nproc)
             p = subprocess.run([os.path.join(VERIF, 'bin', 'check'), prop, tier],
